@@ -21,6 +21,14 @@
 //!                    arbitrary Unicode and nesting up to depth 200. A panic (site = file:line
 //!                    from the panic location), a process death or a timeout is a disagreement
 //!                    with the property.
+//!                    Sub-families added for holes found by seeded changes: `scoped` / `context-key` — all entry
+//!                    points (and evaluation) in parsing scopes whose entries are named "", " ", a single additional
+//!                    symbol, with an inner run of blanks, or very long, and context literals whose string keys
+//!                    put such entries into the scope themselves; `bif-extreme` — EVERY name of the regenerated
+//!                    table of built-in names (`(c10 bifnames)`, translate/bifnames.py) invoked positionally with
+//!                    0..4 arguments and by name (parameter names read from bifs/named.rs) over a pool of extreme
+//!                    values (empty list, lists of nulls, nested empty lists, 0, -1, huge numbers, NaN / Infinity,
+//!                    empty string, null, contexts, ranges, functions).
 
 use crate::c10::{compare_streams, impl_tokens, tokenize_request};
 use crate::model::Model;
@@ -71,16 +79,47 @@ pub const ENTRIES: [&str; 8] = [
   "parse_longest_name",
 ];
 
-fn run_entry(entry: &str, input: &str, trace: bool) -> Result<Option<dmntk_feel::AstNode>, String> {
-  let scope = Scope::default();
+/// Marks an input of the process family that carries a parsing scope: `MARK json-array-of-names MARK text`.
+const SCOPE_MARK: char = '\u{1}';
+
+/// An input of the process family together with the names of the entries of the parsing scope it is parsed (and
+/// evaluated) in; every entry is made with `Name::from(name)` and bound to the number 1.
+fn scoped_input(names: &[&str], text: &str) -> String {
+  format!("{}{}{}{}", SCOPE_MARK, serde_json::to_string(names).unwrap_or_else(|_| "[]".into()), SCOPE_MARK, text)
+}
+
+/// The scope names and the text of an input of the process family (no names for a plain input).
+fn split_scoped(input: &str) -> (Vec<String>, &str) {
+  if let Some(rest) = input.strip_prefix(SCOPE_MARK) {
+    if let Some(k) = rest.find(SCOPE_MARK) {
+      if let Ok(names) = serde_json::from_str::<Vec<String>>(&rest[..k]) {
+        return (names, &rest[k + SCOPE_MARK.len_utf8()..]);
+      }
+    }
+  }
+  (vec![], input)
+}
+
+/// The input as shown in a report (the replay): the scope written out, then the text.
+fn shown_input(input: &str) -> String {
+  let (names, text) = split_scoped(input);
+  if input.starts_with(SCOPE_MARK) {
+    let names: Vec<String> = names.iter().map(|n| if n.chars().count() > 60 { format!("{:?}… ({} characters)", n.chars().take(20).collect::<String>(), n.chars().count()) } else { format!("{:?}", n) }).collect();
+    format!("parsing scope with the entries Name::from of [{}] (each bound to 1), text: {}", names.join(", "), text)
+  } else {
+    text.to_string()
+  }
+}
+
+fn run_entry(scope: &Scope, entry: &str, input: &str, trace: bool) -> Result<Option<dmntk_feel::AstNode>, String> {
   let r = match entry {
-    "parse_expression" => dmntk_feel_parser::parse_expression(&scope, input, trace).map(Some),
-    "parse_textual_expression" => dmntk_feel_parser::parse_textual_expression(&scope, input, trace).map(Some),
-    "parse_textual_expressions" => dmntk_feel_parser::parse_textual_expressions(&scope, input, trace).map(Some),
-    "parse_boxed_expression" => dmntk_feel_parser::parse_boxed_expression(&scope, input, trace).map(Some),
-    "parse_context" => dmntk_feel_parser::parse_context(&scope, input, trace).map(Some),
-    "parse_unary_tests" => dmntk_feel_parser::parse_unary_tests(&scope, input, trace).map(Some),
-    "parse_name" => dmntk_feel_parser::parse_name(&scope, input, trace).map(|_| None),
+    "parse_expression" => dmntk_feel_parser::parse_expression(scope, input, trace).map(Some),
+    "parse_textual_expression" => dmntk_feel_parser::parse_textual_expression(scope, input, trace).map(Some),
+    "parse_textual_expressions" => dmntk_feel_parser::parse_textual_expressions(scope, input, trace).map(Some),
+    "parse_boxed_expression" => dmntk_feel_parser::parse_boxed_expression(scope, input, trace).map(Some),
+    "parse_context" => dmntk_feel_parser::parse_context(scope, input, trace).map(Some),
+    "parse_unary_tests" => dmntk_feel_parser::parse_unary_tests(scope, input, trace).map(Some),
+    "parse_name" => dmntk_feel_parser::parse_name(scope, input, trace).map(|_| None),
     "parse_longest_name" => dmntk_feel_parser::parse_longest_name(input).map(|_| None),
     _ => return Err("unknown entry".into()),
   };
@@ -112,11 +151,21 @@ fn evaluation_may_be_long(input: &str) -> bool {
 
 /// One input in the child: every entry point, then `evaluate` of what `parse_expression`
 /// built. One result word per step.
-fn observe(input: &str) -> Vec<String> {
+fn observe(raw: &str) -> Vec<String> {
   let mut out = vec![];
   let mut node = None;
+  let (names, input) = split_scoped(raw);
+  // a fresh scope for every entry point (a failed parse may leave what it pushed)
+  let make_scope = || {
+    let scope = Scope::default();
+    for n in &names {
+      scope.set_entry(&Name::from(n.as_str()), Value::Number(FeelNumber::from_i128(1)));
+    }
+    scope
+  };
   for e in ENTRIES {
-    match located(|| run_entry(e, input, false)) {
+    let scope = make_scope();
+    match located(|| run_entry(&scope, e, input, false)) {
       Ok(Ok(n)) => {
         if e == "parse_expression" {
           node = n;
@@ -129,7 +178,7 @@ fn observe(input: &str) -> Vec<String> {
   }
   match node {
     Some(n) if !evaluation_may_be_long(input) => {
-      let scope = Scope::default();
+      let scope = make_scope();
       match located(|| dmntk_feel_evaluator::evaluate(&scope, &n)) {
         Ok(Ok(v)) => out.push(if matches!(v, Value::Null(_)) { "null".to_string() } else { "value".to_string() }),
         Ok(Err(_)) => out.push("err".to_string()),
@@ -166,7 +215,7 @@ pub fn child(args: &[String], stdin: &str) -> i32 {
     }
     Some("trace") => {
       let entry = args.get(1).cloned().unwrap_or_default();
-      let r = located(|| run_entry(&entry, stdin, true));
+      let r = located(|| run_entry(&Scope::default(), &entry, stdin, true));
       match r {
         Ok(Ok(_)) => println!("\n#RESULT ok"),
         Ok(Err(_)) => println!("\n#RESULT err"),
@@ -262,6 +311,247 @@ fn bif_names() -> Vec<String> {
   out
 }
 
+fn sexp_text(x: &crate::sexp::Sexp) -> Option<String> {
+  let xs = x.as_list()?;
+  if xs.first()?.as_atom()? != "s" {
+    return None;
+  }
+  let mut s = String::new();
+  for c in &xs[1..] {
+    s.push(char::from_u32(c.as_atom()?.parse::<u32>().ok()?)?);
+  }
+  Some(s)
+}
+
+/// String literals of one line of Rust source (no escapes expected in parameter names).
+fn quoted(line: &str) -> Vec<String> {
+  let mut out = vec![];
+  let mut rest = line;
+  while let Some(i) = rest.find('"') {
+    let after = &rest[i + 1..];
+    match after.find('"') {
+      Some(j) => {
+        out.push(after[..j].to_string());
+        rest = &after[j + 1..];
+      }
+      None => break,
+    }
+  }
+  out
+}
+
+/// The identifiers `NAME_…` of a source fragment, in the order of their first occurrence.
+fn name_constants(src: &str) -> Vec<String> {
+  let mut out: Vec<String> = vec![];
+  let b = src.as_bytes();
+  let mut i = 0;
+  while let Some(k) = src[i..].find("NAME_") {
+    let start = i + k;
+    let mut end = start;
+    while end < b.len() && (b[end].is_ascii_uppercase() || b[end].is_ascii_digit() || b[end] == b'_') {
+      end += 1;
+    }
+    let id = src[start..end].to_string();
+    if !out.contains(&id) {
+      out.push(id);
+    }
+    i = end.max(start + 1);
+  }
+  out
+}
+
+/// The parameter names of the named front end of every built-in, read from the sources of /repo:
+/// feel/src/bif.rs (FEEL name → variant), feel-evaluator/src/bifs/named.rs (variant → function → the `NAME_…`
+/// constants it looks up → their texts). Second component: all parameter names there are.
+fn bif_parameter_names() -> (std::collections::HashMap<String, Vec<String>>, Vec<String>) {
+  use std::collections::HashMap;
+  let bif_src = std::fs::read_to_string("/repo/feel/src/bif.rs").unwrap_or_default();
+  let named = std::fs::read_to_string("/repo/feel-evaluator/src/bifs/named.rs").unwrap_or_default();
+  let mut variant_of: Vec<(String, String)> = vec![];
+  for line in bif_src.lines() {
+    let t = line.trim();
+    if t.starts_with('"') {
+      if let (Some(n), Some(k)) = (quoted(t).first(), t.find("=> Ok(Self::")) {
+        let v: String = t[k + "=> Ok(Self::".len()..].chars().take_while(|c| c.is_alphanumeric() || *c == '_').collect();
+        variant_of.push((n.clone(), v));
+      }
+    }
+  }
+  let mut constant: HashMap<String, String> = HashMap::new();
+  let mut fn_of: HashMap<String, String> = HashMap::new();
+  for line in named.lines() {
+    let t = line.trim();
+    if let Some(r) = t.strip_prefix("static ref NAME_") {
+      let id: String = format!("NAME_{}", r.chars().take_while(|c| c.is_ascii_uppercase() || c.is_ascii_digit() || *c == '_').collect::<String>());
+      let parts = quoted(t);
+      if !parts.is_empty() {
+        constant.insert(id, parts.join(" "));
+      }
+    } else if let Some(r) = t.strip_prefix("Bif::") {
+      if let Some(k) = r.find("=>") {
+        let v = r[..k].trim().to_string();
+        let f: String = r[k + 2..].trim().chars().take_while(|c| c.is_alphanumeric() || *c == '_').collect();
+        fn_of.insert(v, f);
+      }
+    }
+  }
+  let mut body_of: HashMap<String, String> = HashMap::new();
+  let mut rest = named.as_str();
+  while let Some(k) = rest.find("\nfn ") {
+    let after = &rest[k + 4..];
+    let name: String = after.chars().take_while(|c| c.is_alphanumeric() || *c == '_').collect();
+    let end = after.find("\nfn ").or_else(|| after.find("\npub fn ")).unwrap_or(after.len());
+    body_of.insert(name, after[..end].to_string());
+    rest = &after[end.min(after.len())..];
+    if end == after.len() {
+      break;
+    }
+  }
+  let mut out: HashMap<String, Vec<String>> = HashMap::new();
+  for (feel_name, variant) in &variant_of {
+    if let Some(body) = fn_of.get(variant).and_then(|f| body_of.get(f)) {
+      let ps: Vec<String> = name_constants(body).iter().filter_map(|id| constant.get(id).cloned()).collect();
+      out.insert(feel_name.clone(), ps);
+    }
+  }
+  let mut all: Vec<String> = constant.values().cloned().collect();
+  all.sort();
+  all.dedup();
+  (out, all)
+}
+
+/// The pool of extreme argument values of the family `bif-extreme` (FEEL text). The first `EXTREME_CORE` are the
+/// ones every pair is formed of.
+const EXTREME_CORE: usize = 14;
+const EXTREME: [&str; 52] = [
+  "[]",
+  "[null]",
+  "[[]]",
+  "null",
+  "0",
+  "-1",
+  "99999999999999999999999999999999999",
+  "(exp(100000)-exp(100000))",
+  "exp(100000)",
+  "\"\"",
+  "{}",
+  "[1..2]",
+  "function(x) x",
+  "[1, 2, 3]",
+  // the rest
+  "[null, null]",
+  "[[], []]",
+  "[[[]]]",
+  "[[null]]",
+  "[[1], []]",
+  "[\"\"]",
+  "[\"a\", 1]",
+  "[0]",
+  "[{}]",
+  "1",
+  "2",
+  "0.5",
+  "-0.5",
+  "-0",
+  "-99999999999999999999999999999999999",
+  "0.0000000000000000000000000000000001",
+  "-exp(100000)",
+  "9223372036854775807",
+  "9223372036854775808",
+  "-9223372036854775809",
+  "18446744073709551616",
+  "2147483648",
+  "\"a\"",
+  "\" \"",
+  "\"\\u0000\"",
+  "\"🙏é\"",
+  "true",
+  "{a: 1}",
+  "{a: null, b: {}}",
+  "(1..2)",
+  "[\"a\"..\"b\"]",
+  "[2..1]",
+  "function() 1",
+  "abs",
+  "date(\"2021-02-03\")",
+  "time(\"10:11:12\")",
+  "duration(\"PT1H\")",
+  "duration(\"-P1Y2M\")",
+];
+
+/// Every way the family `bif-extreme` invokes one built-in: positionally with 0..4 arguments and by name with the
+/// parameter names of its named front end (and with names from the whole pool of parameter names), the arguments
+/// drawn from `EXTREME`: all single values, all pairs of the core values, random triples and quadruples.
+fn bif_systematic(rng: &mut Rng, b: &str, own: &[String], all_params: &[String], thorough: bool) -> Vec<String> {
+  const FALLBACK: [&str; 12] = ["list", "n", "string", "from", "to", "date", "match", "input", "pattern", "range", "value", "position"];
+  let mut out = vec![];
+  let x = |rng: &mut Rng| -> &'static str {
+    if rng.chance(2, 3) {
+      EXTREME[rng.below(EXTREME_CORE as u64) as usize]
+    } else {
+      *rng.pick(&EXTREME)
+    }
+  };
+  // positional
+  out.push(format!("{}()", b));
+  for a in EXTREME {
+    out.push(format!("{}({})", b, a));
+  }
+  for a in &EXTREME[..EXTREME_CORE] {
+    for c in &EXTREME[..EXTREME_CORE] {
+      out.push(format!("{}({}, {})", b, a, c));
+    }
+  }
+  for _ in 0..(if thorough { 600 } else { 40 }) {
+    out.push(format!("{}({}, {})", b, x(rng), x(rng)));
+  }
+  for _ in 0..(if thorough { 2000 } else { 70 }) {
+    out.push(format!("{}({}, {}, {})", b, x(rng), x(rng), x(rng)));
+  }
+  for _ in 0..(if thorough { 1000 } else { 30 }) {
+    out.push(format!("{}({}, {}, {}, {})", b, x(rng), x(rng), x(rng), x(rng)));
+  }
+  // named: the parameters the front end of this built-in looks up
+  let own: Vec<&str> = if own.is_empty() { vec!["list"] } else { own.iter().map(|s| s.as_str()).collect() };
+  for p in &own {
+    for a in EXTREME {
+      out.push(format!("{}({}: {})", b, p, a));
+    }
+  }
+  if own.len() >= 2 {
+    // every prefix of the parameter list and every pair of parameters
+    for k in 2..=own.len().min(4) {
+      for _ in 0..(if thorough { 400 } else { 40 }) {
+        let args: Vec<String> = own[..k].iter().map(|p| format!("{}: {}", p, x(rng))).collect();
+        out.push(format!("{}({})", b, args.join(", ")));
+      }
+    }
+    for i in 0..own.len() {
+      for j in 0..own.len() {
+        if i != j {
+          for _ in 0..(if thorough { 40 } else { 4 }) {
+            out.push(format!("{}({}: {}, {}: {})", b, own[i], x(rng), own[j], x(rng)));
+          }
+        }
+      }
+    }
+    if own.len() == 2 {
+      for a in &EXTREME[..EXTREME_CORE] {
+        for c in &EXTREME[..EXTREME_CORE] {
+          out.push(format!("{}({}: {}, {}: {})", b, own[0], a, own[1], c));
+        }
+      }
+    }
+  }
+  // named: parameter names of other built-ins (a front end that forgets to look at the name)
+  for _ in 0..(if thorough { 200 } else { 12 }) {
+    let p: &str = if all_params.is_empty() { *rng.pick(&FALLBACK) } else { rng.pick(all_params).as_str() };
+    out.push(format!("{}({}: {})", b, p, x(rng)));
+  }
+  out.push(format!("{}(list: [])", b));
+  out
+}
+
 /// An argument for the built-in stress family: values at the edges of what the built-ins convert
 /// (fractions beyond nanoseconds, 35-digit numbers, zero, negative, temporal values, nesting).
 fn gen_stress_arg(rng: &mut Rng) -> String {
@@ -294,7 +584,13 @@ fn gen_expr(rng: &mut Rng, depth: u32) -> String {
     11 => format!("[{}]", (0..rng.below(4)).map(|_| gen_expr(rng, d)).collect::<Vec<_>>().join(", ")),
     12 => format!("{}[{}]", gen_expr(rng, d), gen_expr(rng, d)),
     13 => format!("{}[item {} {}]", gen_expr(rng, d), rng.pick(&["<", ">", "="]), gen_expr(rng, d)),
-    14 => format!("{{{}}}", (0..rng.below(3)).map(|_| format!("{}: {}", rng.pick(&["a", "b", "Full Name", "\"s\""]), gen_expr(rng, d))).collect::<Vec<_>>().join(", ")),
+    14 => format!(
+      "{{{}}}",
+      (0..rng.below(4))
+        .map(|_| format!("{}: {}", rng.pick(&["a", "b", "Full Name", "\"s\"", "\"\"", "\" \"", "\"+\"", "\"a  b\"", "\"a+b\"", "\"\\t\"", "x"]), gen_expr(rng, d)))
+        .collect::<Vec<_>>()
+        .join(", ")
+    ),
     15 => format!("{}.{}", gen_expr(rng, d), rng.pick(&["a", "b", "year", "Full Name"])),
     16 | 17 => {
       let n = rng.below(4);
@@ -774,6 +1070,10 @@ pub fn run(cfg: &Cfg) -> Report {
     let mut cases: Vec<C> = vec![];
     let n = if thorough { 200000 } else { 6000 };
     let words = ["a", "in", "item", "x", "é", "b c", "a-b", "date", "time", "number", "date and time", "duration", "in+x", "for", "return"];
+    // entries whose name is empty, blank, a single additional symbol, or has an inner run of white space (the name
+    // of an entry is whatever the caller — or a context literal with a string key — made it)
+    let odd_keys = ["", " ", "+", "-", ".", "/", "*", "'", "a  b", "a +", "+ a", "\t", "a.b", "a . b"];
+    let long_key: String = "n".repeat(3000);
     let mut fixed: Vec<(&str, (bool, bool, bool, bool))> = vec![
       ("in+x in [1] return 1", (false, false, false, true)),
       ("in", (false, false, false, true)),
@@ -798,12 +1098,34 @@ pub fn run(cfg: &Cfg) -> Report {
       let imp = impl_tokens(&scope, inp, *flags, 64);
       cases.push(C { input: inp.to_string(), keys: vec![], flags: *flags, imp });
     }
+    for key in odd_keys.iter().copied().chain(std::iter::once(long_key.as_str())) {
+      for inp in ["a + b", "hello", "x, > 10", "a  b", "a b c", "item", "+", "a+b-c", "for x in y return z", " ", ""] {
+        for other in [None, Some("a")] {
+          let scope = Scope::default();
+          scope.set_entry(&Name::from(key), Value::Number(FeelNumber::from_i128(1)));
+          if let Some(o) = other {
+            scope.set_entry(&Name::from(o), Value::Number(FeelNumber::from_i128(1)));
+          }
+          let mut keys: Vec<String> = scope.flatten_keys().into_iter().collect();
+          keys.sort();
+          let flags = (false, false, false, false);
+          let imp = impl_tokens(&scope, inp, flags, 64);
+          cases.push(C { input: inp.to_string(), keys, flags, imp });
+        }
+      }
+    }
     for i in 0..n {
       let scope = Scope::default();
       for _ in 0..rng.below(4) {
         let w = rng.pick(&words);
         let parts: Vec<&str> = w.split(' ').collect();
         scope.set_entry(&Name::new(&parts), Value::Number(FeelNumber::from_i128(1)));
+      }
+      if i % 3 == 0 {
+        for _ in 0..(1 + rng.below(2)) {
+          let k = if rng.chance(1, 12) { long_key.as_str() } else { *rng.pick(&odd_keys) };
+          scope.set_entry(&Name::from(k), Value::Number(FeelNumber::from_i128(1)));
+        }
       }
       let mut keys: Vec<String> = scope.flatten_keys().into_iter().collect();
       keys.sort();
@@ -946,6 +1268,111 @@ pub fn run(cfg: &Cfg) -> Report {
   ] {
     inputs.push(("corpus".into(), s.to_string()));
   }
+  // ---- parsing scopes with entries whose names no grammar-derived scope has: empty, blank, a single additional
+  // symbol, an inner run of white space, very long; every entry point, then evaluation in the same scope
+  {
+    let long_a: String = "n".repeat(5000);
+    let long_b: String = (0..800).map(|i| format!("w{}", i)).collect::<Vec<_>>().join(" ");
+    let scopes: Vec<Vec<&str>> = vec![
+      vec![""],
+      vec![" "],
+      vec!["\t\n"],
+      vec!["", "a"],
+      vec!["", "hello"],
+      vec![" ", "x"],
+      vec!["+"],
+      vec!["-"],
+      vec!["."],
+      vec!["/"],
+      vec!["*"],
+      vec!["'"],
+      vec!["+", "a"],
+      vec!["a  b"],
+      vec!["a  b", "a"],
+      vec!["a +"],
+      vec!["+ a"],
+      vec!["a+b"],
+      vec!["a + b"],
+      vec!["a.b", "a"],
+      vec!["in"],
+      vec!["item"],
+      vec![long_a.as_str()],
+      vec![long_b.as_str()],
+      vec![long_a.as_str(), ""],
+      vec!["", " ", "+", "a  b", "a", "b"],
+    ];
+    let mut texts: Vec<String> = [
+      "a + b",
+      "hello",
+      "x, > 10",
+      "a",
+      "b",
+      "a  b",
+      "a  b + 1",
+      "a b",
+      "a+b",
+      "a + b - c",
+      "+",
+      "+ a",
+      "-a",
+      ".a",
+      "a.b",
+      "a . b",
+      " ",
+      "",
+      "{a: b}",
+      "{\"\": 1, a: b}",
+      "{\" \": 1, a: b}",
+      "{a: 1, b: a}",
+      "[a, b, c]",
+      "for x in [1, 2] return x + y",
+      "some x in [1] satisfies x = y",
+      "function(p, q) p + q + r",
+      "f(a, b)",
+      "f(p: a)",
+      "[1, 2, 3][item > y]",
+      "a instance of number",
+      "a between b and c",
+      "a in (b, c)",
+      "< a, [b..c]",
+      "not(a)",
+      "if a then b else c",
+      "a.b.c",
+      "@\"P1D\" + d",
+      "date and time",
+      "item",
+      "in",
+      "nnnn",
+      "w0 w1 w2",
+    ]
+    .iter()
+    .map(|t| t.to_string())
+    .collect();
+    texts.push(long_a.clone());
+    texts.push(format!("{} + 1", long_b));
+    for sc in &scopes {
+      for t in &texts {
+        inputs.push(("scoped".into(), scoped_input(sc, t)));
+      }
+      for _ in 0..(if thorough { 400 } else { 12 }) {
+        let d = 1 + rng.below(3) as u32;
+        let e = if rng.chance(1, 4) { gen_unary_tests(&mut rng, d) } else { gen_expr(&mut rng, d) };
+        inputs.push(("scoped".into(), scoped_input(sc, &e)));
+      }
+    }
+    // context literals whose string keys put such entries into the parsing scope themselves
+    let keys = ["\"\"", "\" \"", "\"\\t\"", "\"+\"", "\"-\"", "\"a  b\"", "\"a +\"", "\"a+b\"", "\".\"", "\"'\"", "a", "a b", "a+b"];
+    let tails = ["a: b", "a: 1, b: a", "x: y + z", "r: a + b", "r: for i in [1] return i + k", "r: function(p) p + q", "r: [1, 2][item > u]", "\"\": 2, r: s", "\" \": 2, r: s", "r: {\"\": 3, t: u}", "r: hello world"];
+    for k in keys {
+      for t in tails {
+        let lit = format!("{{{}: 1, {}}}", k, t);
+        inputs.push(("context-key".into(), lit.clone()));
+        inputs.push(("context-key".into(), format!("{}.r", lit)));
+        inputs.push(("context-key".into(), format!("[{}, nothing]", lit)));
+        inputs.push(("context-key".into(), format!("{{outer: {}, after: unknown name}}", lit)));
+      }
+    }
+  }
   let n_grammar = if thorough { 250000 } else { 2500 };
   for _ in 0..n_grammar {
     let d = 1 + rng.below(4) as u32;
@@ -972,8 +1399,35 @@ pub fn run(cfg: &Cfg) -> Report {
     inputs.push(("escapes".into(), gen_escape_string(&mut rng)));
   }
   // every built-in name with edge-case arguments, positional and (for the date/time constructors) named
-  let bifs = bif_names();
+  // The names come from the table REGENERATED from feel/src/bif.rs (`Dmn.Gen.bifNames`, translate/bifnames.py, asked
+  // from the driver): every name `Bif::from_str` accepts is stressed, also the ones implemented after this was written.
+  let table: Vec<String> = crate::sexp::Sexp::parse(&model.ask("(c10 bifnames)"))
+    .and_then(|x| x.as_list().map(|l| l.iter().filter_map(sexp_text).collect()))
+    .unwrap_or_default();
+  let mut bifs = bif_names();
   rep.extra.insert("bif_names_found".into(), json!(bifs.len()));
+  rep.extra.insert("bif_names_in_regenerated_table".into(), json!(table.len()));
+  if table.len() < 20 {
+    rep.disagree(Kind::ImplVsModel, "bif-stress", "the regenerated table of built-in function names is unreadable", "(c10 bifnames)", &format!("{:?}", table), "the names Bif::from_str accepts");
+  }
+  for t in &table {
+    if !bifs.contains(t) {
+      bifs.push(t.clone());
+    }
+  }
+  let (params_of, all_params) = bif_parameter_names();
+  rep.extra.insert("bif_named_front_ends_read".into(), json!(params_of.len()));
+  rep.extra.insert("bif_parameter_names_read".into(), json!(all_params.len()));
+  if all_params.len() < 20 {
+    rep.notes.push("the parameter names of the named front end (feel-evaluator/src/bifs/named.rs) could not be read; a built-in list of parameter names is used".into());
+  }
+  // every name × both call forms × 0..4 arguments from the pool of extreme values
+  for b in &bifs {
+    let own: Vec<String> = params_of.get(b).cloned().unwrap_or_default();
+    for e in bif_systematic(&mut rng, b, &own, &all_params, thorough) {
+      inputs.push(("bif-extreme".into(), format!("/*small*/ {}", e)));
+    }
+  }
   for b in &bifs {
     for _ in 0..(if thorough { 600 } else { 30 }) {
       let n = rng.below(5);
@@ -1206,7 +1660,7 @@ pub fn run(cfg: &Cfg) -> Report {
         Kind::ImplVsSpec,
         "process",
         &format!("process death {} during {} (family {})", d, phase, fam),
-        &o.input,
+        &shown_input(&o.input),
         &format!("child process ended with {}", d),
         "every entry point returns a tree or an error; evaluation returns a value",
       );
@@ -1220,14 +1674,14 @@ pub fn run(cfg: &Cfg) -> Report {
           Kind::ImplVsSpec,
           "process",
           &format!("panic {} ({})", loc, who),
-          &o.input,
+          &shown_input(&o.input),
           &format!("{} panicked at {}", entry, loc),
           "a tree, a value or an error",
         );
       }
     }
     if rep.samples.len() < 8 && accepted {
-      rep.sample(json!({"family": format!("process:{}", o.family), "input": o.input, "entries": ENTRIES, "observed": o.words}));
+      rep.sample(json!({"family": format!("process:{}", o.family), "input": shown_input(&o.input), "entries": ENTRIES, "observed": o.words}));
     }
   }
   if obs.len() != inputs.len() {
